@@ -192,7 +192,25 @@ class Parser:
             n = self.peek(1)
             if is_i(n):
                 self.i += 2
-                return ("interp", n["i"])
+                node = ("interp", n["i"])
+                nx = self.peek()
+                if is_p(nx, "|") and (is_p(self.peek(1), "#") or is_i(self.peek(1)) or is_p(self.peek(1), "|")):
+                    # `#m |a, b| body`: closure whose `move` keyword is interpolated
+                    self.i += 1
+                    params = []
+                    while not self.eof() and not is_p(self.peek(), "|"):
+                        params.append(self.peek())
+                        self.i += 1
+                    self.i += 1
+                    body = self.expr()
+                    return ("closure", "#" + n["i"], text(params), body)
+                if is_g(nx, "("):
+                    self.i += 1
+                    return ("call", node, Parser(nx["t"]).comma_list())
+                if is_g(nx, "{") and _looks_like_fields(nx["t"]):
+                    self.i += 1
+                    return ("struct", node, _fields(nx["t"]))
+                return node
             if is_g(n, "("):
                 body = Parser(n["t"])
                 inner = body.block()
@@ -348,6 +366,94 @@ def parse(toks):
     if not b[1] and b[2] is not None:
         return b[2]
     return b
+
+
+# ----------------------------------------------------------------------
+# items inside templates (generated impls / structs): located structurally, bodies parsed as blocks
+def fns_in(toks, ctx=()):
+    """Yield (context, fn_name, signature_tokens, body_tokens) for every `fn` in a token list,
+    descending into `mod`, `impl` and `trait` bodies. context = tuple of header texts."""
+    i = 0
+    n = len(toks)
+    while i < n:
+        t = toks[i]
+        if is_i(t, "fn") and i + 1 < n and (is_i(toks[i + 1]) or is_p(toks[i + 1], "#")):
+            name = toks[i + 1]["i"] if is_i(toks[i + 1]) else "#" + toks[i + 2].get("i", "?")
+            j = i + 2
+            while j < n and not is_g(toks[j], "{") and not is_p(toks[j], ";"):
+                j += 1
+            if j < n and is_g(toks[j], "{"):
+                yield (ctx, name, toks[i + 2 : j], toks[j]["t"])
+            i = j + 1
+            continue
+        if is_i(t) and t["i"] in ("impl", "mod", "trait"):
+            j = i + 1
+            while j < n and not is_g(toks[j], "{") and not is_p(toks[j], ";"):
+                j += 1
+            if j < n and is_g(toks[j], "{"):
+                yield from fns_in(toks[j]["t"], ctx + (text(toks[i:j]),))
+            i = j + 1
+            continue
+        i += 1
+
+
+def structs_in(toks, ctx=()):
+    """Yield (context, name_text, body_tokens, delimiter) for every `struct` definition with a body."""
+    i = 0
+    n = len(toks)
+    while i < n:
+        t = toks[i]
+        if is_i(t, "struct"):
+            j = i + 1
+            while j < n and not is_g(toks[j], "{") and not is_g(toks[j], "(") and not is_p(toks[j], ";"):
+                j += 1
+            if j < n and is_g(toks[j]):
+                yield (ctx, text(toks[i + 1 : j]), toks[j]["t"], toks[j]["g"])
+            i = j + 1
+            continue
+        if is_i(t) and t["i"] in ("mod",):
+            j = i + 1
+            while j < n and not is_g(toks[j], "{") and not is_p(toks[j], ";"):
+                j += 1
+            if j < n and is_g(toks[j], "{"):
+                yield from structs_in(toks[j]["t"], ctx + (text(toks[i:j]),))
+            i = j + 1
+            continue
+        i += 1
+
+
+def impl_header(h):
+    """'impl <generics> Trait for Type ...' -> (trait_last_segment | None, self_text)."""
+    words = h.split()
+    if not words or words[0] != "impl":
+        return (None, h)
+    if "for" in words:
+        k = len(words) - 1 - words[::-1].index("for")
+        before = [w for w in words[1:k]]
+        after = words[k + 1 :]
+        # trait = last identifier-like word before `for` that is not an interpolation marker
+        idents = [w for i, w in enumerate(before) if w[0].isalpha() or w[0] == "_"]
+        # drop interpolated names (`# impl_generics`, `# type_generics`)
+        plain = []
+        for i, w in enumerate(before):
+            if (w[0].isalpha() or w[0] == "_") and not (i > 0 and before[i - 1] == "#"):
+                plain.append(w)
+        trait = None
+        for w in plain:
+            if w[0].isupper():
+                trait = w if trait is None or True else trait
+        # first capitalised plain word after the generics is the trait's last segment before any `<`
+        trait = None
+        depth = 0
+        for i, w in enumerate(before):
+            if w == "<":
+                depth += 1
+            elif w == ">":
+                depth -= 1
+            elif depth == 0 and (w[0].isalpha() or w[0] == "_") and not (i > 0 and before[i - 1] == "#"):
+                trait = w
+        return (trait, " ".join(after))
+    return (None, " ".join(words[1:]))
 
 
 # ----------------------------------------------------------------------
